@@ -38,11 +38,17 @@ def padded(case, name):
     return s + ["EXT"] * (n - len(s)), p + ["EXT"] * (n - len(p))
 
 
+def norm(m, n):
+    """the map counted from the front (Python's `seq[i]`: a negative index counts from the end)"""
+    return [i + n if -n <= i < 0 else i for i in m]
+
+
 def is_perm(m, n):
-    return sorted(m) == list(range(n))
+    return sorted(norm(m, n)) == list(range(n))
 
 
 def is_involution(m):
+    m = norm(m, len(m))
     return all(m[m[i]] == i for i in range(len(m)))
 
 
@@ -103,9 +109,15 @@ def spec_build(case):
     if any(n <= 0 for _, n in case["lv"]):
         return {"err": ["ValueError"]}
     rx = dict(case["base"]["rxns"])
+    raw = c05.raw_of(case)
     for name, m in case["maps"]:
         if name not in rx:
             return {"err": ["KeyError"]}
+        bad = c05.first_bad(raw.get(name, []))
+        if bad:
+            # `_unpack_stoichiometries`, entry by entry: a Derived is refused (NotImplementedError), a float that is not
+            # a whole number too (ValueError); whole numbers pass however they are written
+            return {"err": ["NotImplementedError" if bad == "TypeError" else bad]}
         subs, prods = c05.unpack(rx[name]["st"])
         if any(c not in lv for c in subs + prods):
             return {"err": ["KeyError"]}
@@ -113,21 +125,27 @@ def spec_build(case):
         if len(m) < n:
             return {"err": ["ValueError"]}
         # the loop assigns res[pos] for the first n entries, then notices the length mismatch
-        if any(p >= n for p in m[:n]):
-            return {"err": ["IndexError"]}
+        if any(p >= n or p < -n for p in m[:n]):
+            return {"err": ["IndexError"]}  # `substrates[pos]`: -n <= pos < n
         if len(m) > n:
             return {"err": ["ValueError"]}
     return {"ok": True}
 
 
 def spec_vars(case):
+    """every position of every listed compound, 1/len(requested) on the requested ones; a requested position that no
+    listed compound has (beyond the compound's positions, or of a compound that is not listed) becomes a variable of
+    its own with that value - the code writes `variables[f"{compound}__{pos}"]` without looking (observation: such a
+    variable takes part in no reaction)"""
     init = dict((k, v) for k, v in case.get("init", []))
-    out = []
+    vals = {}
     for x, n in case["lv"]:
         for i in range(n):
-            pos = init.get(x, [])
-            out.append([f"{x}__{i}", num(Fraction(1, len(pos))) if i in pos else "0"])
-    return sorted(out)
+            vals[f"{x}__{i}"] = "0"
+    for x, pos in case.get("init", []):
+        for i in pos:
+            vals[f"{x}__{i}"] = num(Fraction(1, len(pos)))
+    return sorted([k, v] for k, v in vals.items())
 
 
 # --------------------------------------------------------------------------- real code
@@ -199,6 +217,7 @@ def _real_worker(case):
                                  for c, d in r.stoichiometry.items())]
         for k, r in lin.get_raw_reactions().items())
     out["vars"] = sorted([k, num(v)] for k, v in lin.get_initial_conditions().items())
+    out["vocab"] = real_vocab(case, lmap, imap, base)
     iso = None
     for ev in case.get("evals", []):
         res = {}
@@ -248,6 +267,86 @@ def _real_worker(case):
     return out
 
 
+def helper_inputs(case):
+    """(substrates, map) pairs for the pinned helper `_map_substrates_to_labelmap`: the padded substrates of every
+    mapped reaction with its own map (when it has no negative index) and with the reversal"""
+    out = []
+    rx = dict(case["base"]["rxns"])
+    lv = c05.lv_of(case)
+    for name, m in case["maps"]:
+        if name not in rx or any(c not in lv for c, _ in rx[name]["st"]):
+            continue
+        s, _ = padded(case, name)
+        if len(s) > 8:
+            continue
+        for mm in (list(m), list(range(len(s)))[::-1], list(m)[:-1], list(m) + [0]):
+            if all(i >= 0 for i in mm):
+                out.append([s, mm])
+    return out[:6]
+
+
+def padded_names(case):
+    rx = dict(case["base"]["rxns"])
+    lv = c05.lv_of(case)
+    return [name for name, m in case["maps"]
+            if name in rx and all(c in lv for c, _ in rx[name]["st"]) and all(i >= 0 for i in m)
+            and len(m) == len(padded(case, name)[0]) and all(i < len(m) for i in m)]
+
+
+def real_vocab(case, lmap, imap, base):
+    """what the theorems' vocabulary means on the real code: the pinned helper, the padded position lists and the
+    sources `build_model` pairs them with (through the real helpers), the mapper's `get_isotopomers`, and the
+    isotopomers labelled at a position (`LabelMapper.get_isotopomers_of_at_position`)"""
+    from mxlpy import linear_label_map as L
+
+    out = {}
+    hs = []
+    for subs, m in helper_inputs(case):
+        try:
+            hs.append({"ok": L._map_substrates_to_labelmap(list(subs), list(m))})
+        except Exception as e:  # noqa: BLE001
+            hs.append({"err": [type(e).__name__]})
+    out["helper"] = hs
+    pads = []
+    rxns = base.get_raw_reactions()
+    try:
+        isotopomers = lmap.get_isotopomers([x for x, _ in case["lv"]])
+        out["isos"] = [[k, list(v)] for k, v in isotopomers.items()]
+        maps = dict((k, v) for k, v in case["maps"])
+        for name in padded_names(case):
+            su, pr = L._unpack_stoichiometries(rxns[name].stoichiometry)
+            su = L._stoichiometry_to_duplicate_list(su)
+            pr = L._stoichiometry_to_duplicate_list(pr)
+            su = [j for i in su for j in isotopomers[i]]
+            pr = [j for i in pr for j in isotopomers[i]]
+            su, pr = L._add_label_influx_or_efflux(su, pr, list(maps[name]))
+            pads.append([name, list(su), list(pr), L._map_labelmap_to_substrates(list(su), list(maps[name]))])
+    except Exception as e:  # noqa: BLE001
+        out["isos"] = {"err": [type(e).__name__]}
+    out["padded"] = pads
+    # padded length of every `label_maps` entry (0 when the entry is rejected before its map is read)
+    pl = []
+    for name, _ in case["maps"]:
+        try:
+            su, pr = L._unpack_stoichiometries(rxns[name].stoichiometry)
+            su = [j for i in L._stoichiometry_to_duplicate_list(su) for j in isotopomers[i]]
+            pr = [j for i in L._stoichiometry_to_duplicate_list(pr) for j in isotopomers[i]]
+            pl.append([name, max(len(su), len(pr))])
+        except Exception:  # noqa: BLE001
+            pl.append([name, 0])
+    out["padlen"] = pl
+    lab = []
+    if not case.get("no_iso"):
+        for x, n in case["lv"]:
+            for i in range(n):
+                try:
+                    lab.append([f"{x}__{i}", list(imap.get_isotopomers_of_at_position(x, i))])
+                except Exception as e:  # noqa: BLE001
+                    lab.append([f"{x}__{i}", [type(e).__name__]])
+    out["labelled"] = lab
+    return out
+
+
 # --------------------------------------------------------------------------- evaluation
 
 
@@ -258,18 +357,35 @@ def model_request(case, R):
             evals.append({"E": res["E"], "ext": None, "v": res["v"], "C": res["C"]})
     for e, ev in zip(evals, [ev for ev, res in zip(case.get("evals", []), R.get("evals", [])) if "E" in res]):
         e["ext"] = str(ev.get("ext", "1"))
+    iso_states = [ev["state"] for ev, res in zip(case.get("evals", []), R.get("evals", []))
+                  if "state" in ev and ev.get("uniform") is None and "E" in res]
     return {"op": "c16", "lv": case["lv"], "maps": case["maps"], "init": case.get("init", []),
-            "rxns": [[k, r["st"]] for k, r in case["base"]["rxns"]], "evals": evals}
+            "raw": case["base"].get("raw", []),
+            "rxns": [[k, r["st"]] for k, r in case["base"]["rxns"]], "evals": evals,
+            "helper": helper_inputs(case) if "vocab" in R else [],
+            "padded": padded_names(case) if "vocab" in R else [],
+            "iso_states": [] if case.get("no_iso") else iso_states}
 
 
 def canon_M(m):
+    if m.get("nat") == "differs":
+        return {"build": {"err": ["model: linearBuild and linearBuildI differ on maps without negative indices"]}}
     if "err" in m:
         return {"build": {"err": [m["err"][0]]}}
     o = m["ok"]
+    listed = {s_ for _, ss in m.get("isos", []) for s_ in ss}
     return {"build": {"ok": True},
+            "vocab": {"helper": [({"ok": h["ok"]} if "ok" in h else {"err": [h["err"][0]]}) for h in m.get("helper", [])],
+                      "padded": [list(map(lambda x: list(x) if isinstance(x, list) else x, p)) for p in m.get("padded", [])],
+                      "isos": [list(x) for x in m.get("isos", [])],
+                      "padlen": [list(x) for x in m.get("padlen", [])],
+                      "labelled": [list(x) for x in m.get("labelled", [])]},
+            "enrich": [sorted(list(x) for x in e) for e in m.get("enrich", [])],
             "rxns": sorted([n, a, sorted(st)] for n, a, st in o["rxns"]),
             "vars": sorted(o["vars"]),
-            "rhs": [{"ok": sorted(r)} for r in o["rhs"]]}
+            # (the evaluation models of the real side are built without initial_labels: a stray variable that an
+            # out-of-range initial position created exists only in the structure build; it takes part in no reaction)
+            "rhs": [{"ok": sorted(x for x in r if x[0] in listed)} for r in o["rhs"]]}
 
 
 def evaluate(cases, use_driver=True):
@@ -302,6 +418,20 @@ def judge_case(ctx, case, R, M):
             ctx.judge(sub, R[key], {"lv": case["lv"], "maps": case["maps"]}, None,
                       what="mapper attributes after build_model")
     ctx.judge(sub, R["vars"], spec_vars(case), None if M is None else M["vars"], what="initial label placement")
+    if "vocab" in R and M is not None:
+        # the vocabulary of the theorems against the real helpers / queries
+        mv = dict(M["vocab"])
+        if case.get("no_iso"):
+            mv["labelled"] = []
+        ctx.judge(sub, R["vocab"], R["vocab"], mv,
+                  what="pinned helper, padded positions + documented sources, get_isotopomers, isotopomers labelled at a position: real vs model")
+        k2 = 0
+        for ev, res in zip(case.get("evals", []), R["evals"]):
+            if "state" in ev and ev.get("uniform") is None and "E" in res and not case.get("no_iso"):
+                if k2 < len(M["enrich"]):
+                    ctx.judge(dict(sub, evals=[ev]), sorted(res["E"]), sorted(res["E"]), M["enrich"][k2],
+                              what="positional enrichment of the isotopomer state (state fed to the real linear model vs enrichOf)")
+                k2 += 1
     if not allperm:
         # a map that is not a permutation of the padded positions has no linear counterpart: model agreement only
         ctx.judge(sub, R["rxns"], R["rxns"], None if M is None else M["rxns"], what="reactions (non-permutation map)")
@@ -534,9 +664,68 @@ def exhaustive_cases(rng, tier):
                        [(f"out{i}", list(range(labels[c]))) for i, c in enumerate(prods)]
                 out.append(with_evals(rng, make_case(rxns, labels, maps), n_states=1))
             ident = list(range(N))
-            for bad in (ident[:-1], ident + [0], ident[:-1] + [N]):
+            for bad in (ident[:-1], ident + [0], ident[:-1] + [N], ident[:-1] + [-N - 1], [-N - 1] + ident[1:] + [0]):
                 maps = [("v", bad)]
                 out.append(with_evals(rng, make_case([("v", subs, prods)], labels, maps), n_states=1, try_steady=False))
+            # Python's negative indices: every permutation with every non-empty subset of its entries written from
+            # the end (`substrates[-1]` is the last padded position); N <= 3 in quick
+            if N <= 3 or (tier == "thorough" and N == 4):
+                for perm in it.permutations(range(N)):
+                    for k in range(1, 2 ** N):
+                        m = [perm[i] - N if (k >> i) & 1 else perm[i] for i in range(N)]
+                        maps = [(f"in{i}", list(range(labels[c]))) for i, c in enumerate(subs)] + [("v", m)] + \
+                               [(f"out{i}", list(range(-labels[c], 0))) for i, c in enumerate(prods)]
+                        out.append(with_evals(rng, make_case(rxns, labels, maps), n_states=1))
+    return out
+
+
+def trunc(q):
+    """Python's int() on a float: towards zero"""
+    q = Fraction(q)
+    return int(q) if q >= 0 else -int(-q)
+
+
+def with_raw(case, name, kind):
+    """the reaction `name` written with coefficients that are not all Python ints: 'floats' (-1.0, 2.0: read as the
+    integers by both mappers), 'half' (first coefficient v + 1/2: refused with ValueError), 'derived' (first
+    coefficient a Derived: NotImplementedError), 'ints' (explicit ints)"""
+    rx = dict(case["base"]["rxns"])[name]
+    coefs, eff = [], []
+    for i, (c, v) in enumerate(rx["st"]):
+        if kind == "ints":
+            spec, e = {"int": v}, v
+        elif kind == "floats":
+            spec, e = {"float": str(v)}, v
+        elif i == 0 and kind == "derived":
+            spec, e = "derived", v
+        elif i == 0:
+            q = Fraction(2 * v + 1, 2)
+            spec, e = {"float": fexpr.rat_str(q)}, trunc(q)
+        else:
+            spec, e = {"int": v}, v
+        coefs.append([c, spec])
+        eff.append([c, e])
+    rx["st"] = eff
+    case["base"]["raw"] = [[name, coefs]]
+    if kind in ("half", "derived"):
+        case["no_iso"] = True  # rejected by both mappers
+    return case
+
+
+def raw_coefficient_cases(rng):
+    """seed-independent in structure: the chain -> A -> B -> and the merge A + B -> C with the middle reaction written
+    with floats / a half-integer / a Derived / explicit ints, under the identity, the reversal and a short map"""
+    out = []
+    chain = [("i", [], ["A"]), ("v", ["A"], ["B"]), ("o", ["B"], [])]
+    merge = [("i", [], ["A"]), ("j", [], ["B"]), ("v", ["A", "B"], ["C", "C"]), ("o", ["C"], [])]
+    for tpl, labels in ((chain, {"A": 2, "B": 2}), (merge, {"A": 1, "B": 1, "C": 1})):
+        for kind in ("ints", "floats", "half", "derived"):
+            for mv in ([0, 1], [1, 0], [0]):
+                maps = [(n, list(range(max(sum(labels[c] for c in s_), sum(labels[c] for c in p_))))) for n, s_, p_ in tpl]
+                maps = [(n, mv if n == "v" else m) for n, m in maps]
+                case = with_raw(make_case(tpl, labels, maps), "v", kind)
+                ok = "ok" in spec_build(case)
+                out.append(with_evals(rng, case, n_states=1 if ok else 0, try_steady=ok))
     return out
 
 
@@ -601,6 +790,11 @@ def random_case(rng):
             m = m + [0]
         elif n:
             m[rng.randrange(n)] = n + rng.randint(0, 1)
+        if n and m and rng.random() < 0.15:
+            # the same positions written from the end (Python's negative indices); sometimes one below -n
+            m = [i - n if (0 <= i < n and rng.random() < 0.5) else i for i in m]
+            if rng.random() < 0.1:
+                m[rng.randrange(len(m))] = -n - rng.randint(1, 2)
         maps.append((name, m))
     if rng.random() < 0.3:
         rng.shuffle(maps)
@@ -611,7 +805,15 @@ def random_case(rng):
         if labels[c] and rng.random() < 0.3:
             # 1 / len(positions) must be exact in a double: 1 or 2 positions
             init.append([c, sorted(rng.sample(range(labels[c]), rng.randint(1, min(2, labels[c]))))])
+    if cpds and rng.random() < 0.04:
+        # a requested position beyond the compound's positions, or for a compound that carries no labels here
+        c = rng.choice(cpds)
+        init = [e for e in init if e[0] != c] + [[c, sorted({rng.randrange(max(labels[c], 1)), labels[c] + rng.randint(0, 2)})]]
     case = make_case(tpl, labels, maps, init=init)
+    if rng.random() < 0.04:
+        case = with_raw(case, rng.choice(tpl)[0], rng.choice(["ints", "floats", "half", "derived"]))
+    # `initial_labels={"A": 1}`: a bare int for a single position
+    case["init_as_int"] = [c for c, pos in init if len(pos) == 1 and rng.random() < 0.5]
     if rng.random() < 0.03:
         case["lv"] = case["lv"][:-1]
     ok = "ok" in spec_build(case)
@@ -727,6 +929,9 @@ def run(ctx):
     big = large_cases(rng, ctx.tier)
     ctx.extra_cov["many_positions_stratum"] = len(big)
     run_cases(ctx, big)
+    rawc = raw_coefficient_cases(rng)
+    ctx.extra_cov["raw_coefficient_stratum"] = len(rawc)
+    run_cases(ctx, rawc)
     reuse = reuse_cases(rng, ctx.tier) + [random_reuse_case(rng) for _ in range(ctx.n(800, 20000))]
     ctx.extra_cov["mapper_reuse_stratum"] = len(reuse)
     run_cases(ctx, reuse)
